@@ -10,7 +10,7 @@ def rescore_agreement(chk):
     drv = common.Driver()
     rng = chk.rng
     bad = []
-    n = chk.n(1800, 20000)
+    n = chk.n(1800, 80000)
     lines, exp = [], []
     for _ in range(n):
         kname = rng.choice([k for k in al.KERNELS if al.KERNELS[k][3] != 'dialign'])
